@@ -23,19 +23,24 @@ def findings():
 
 def seeded():
     out = ['| seeded change | property | caught by | what it needs in order to manifest |', '|---|---|---|---|']
-    n = c = first = 0
+    n = c = first = h = own = 0
     for d in sorted(glob.glob(os.path.join(ROOT, 'seeded', '*', 'meta.json'))):
         m = json.load(open(d))
         name = os.path.basename(os.path.dirname(d))
-        caught = ','.join(m.get('checks_that_catch_it') or []) or '**missed**'
+        caught = ','.join(m.get('checks_that_catch_it') or []) or ('harmless now' if m.get('harmless') else '**missed**')
         if m.get('first_version_missed') or 'missed by the first version' in m.get('needs_to_manifest', ''):
             caught += ' (after strengthening; the first version of the check missed it)' if m.get('checks_that_catch_it') else ''
             first += 1
         n += 1
         c += 1 if m.get('checks_that_catch_it') else 0
-        out.append('| %s | %s | %s | %s |' % (name, m['property'], caught, m['needs_to_manifest'].replace('|', '/')))
+        h += 1 if m.get('harmless') else 0
+        own += 1 if m['property'] in (m.get('checks_that_catch_it') or []) else 0
+        note = (' [' + m['status_note'] + ']') if m.get('status_note') else ''
+        out.append('| %s | %s | %s | %s |' % (name, m['property'], caught, (m['needs_to_manifest'] + note).replace('|', '/')))
     out.append('')
-    out.append('%d independently seeded changes kept, %d caught by the current checks, %d of them only after the check was strengthened.' % (n, c, first))
+    out.append('%d independently seeded changes kept (three rounds); %d caught by the current checks (%d by the check of their own property, the others by '
+               'the check of the property whose clause they break in passing), %d of them only after a check was strengthened; %d made harmless by a later repair; %d missed.'
+               % (n, c, own, first, h, n - c - h))
     return '\n'.join(out)
 
 
